@@ -61,9 +61,9 @@ Definition merc_projection (flog fexp : float -> float) (p : plate_carree) : pro
                 linear_interpolate (mk_r2_Point (pc_xWrap p) 0).
 
 (** * Edge tessellator (s2/edge_tessellator.go) *)
-Definition tess_t1 : float := (0x1.3fa60fe8ea0e3p-2)%float.     (* tessellationInterpolationFraction *)
-Definition tess_t2 : float := (0x1.602cf80b8af8ep-1)%float.     (* 1 - tessellationInterpolationFraction (constant-folded) *)
-Definition tess_scale : float := (0x1.ad35a6b3d3bc5p-1)%float.  (* tessellationScaleFactor *)
+Definition tess_t1 : float := (0x1.3fa60faccfd31p-2)%float.     (* tessellationInterpolationFraction *)
+Definition tess_t2 : float := (0x1.602cf82998168p-1)%float.     (* 1 - tessellationInterpolationFraction (constant-folded) *)
+Definition tess_scale : float := (0x1.ad35a5da3b5cbp-1)%float.  (* tessellationScaleFactor *)
 Definition tess_min_tol : float := (0x1.c25c268497682p-44)%float. (* minTessellationTolerance = 1e-13 *)
 Definition tess_long_edge : float := (-0x1.6849b86a12b9bp-47)%float. (* -1e-14 *)
 
